@@ -9,7 +9,7 @@ def side_str(v):
     return "" if v is None else str(v)
 
 
-I32_EDGES = [2147483647, -2147483647, -2147483648, 2147483646]
+I32_EDGES = [2147483647, -2147483647, -2147483648, 2147483646, 46341, 65536, -65536, 100000]          # the last four: products and sums of two of them leave the i32 range
 
 
 def sides(k):
@@ -87,8 +87,9 @@ def segmentations(n):
 # field-mode cases
 
 DELIMS = [b"-", b"--", b"ab", b"aba", "é".encode(), b"\t", b","]
-FILLERS = ["<", ">", "x", "{{", "}}", "\\n", " ", "é", "-", "z", "-z", "-mjz"]   # the last ones look like flags when the text starts with them
-FALLBACKS = ["", "F", "a-b", "é", " ", "x ", " y"]
+FILLERS = ["<", ">", "x", "{{", "}}", "\\n", " ", "é", "-", "z", "-z", "-mjz", "Ż", "Ž", "ĺ", "Ĭ", "Ľ", "ĭ", "ı", "Ŝ"]   # the last ones look like flags when the text starts with them
+# (Ż Ž ĺ Ĭ Ľ ĭ ı Ŝ: U+017B U+017D U+013A U+012C U+013D U+012D U+0131 U+015C — their code points end in the bytes of { } : , = - 1 \\: a `char as u8` comparison takes them for syntax)
+FALLBACKS = ["", "F", "a-b", "é", " ", "x ", " y", "n=a", "==", "Ľ"]
 
 
 def alphabet_for(d, z, rich=True):
@@ -100,6 +101,8 @@ def alphabet_for(d, z, rich=True):
         if len(d) == 1 and d[0] < 0x80:
             # characters whose code point has the delimiter as its low byte (U+01dd, U+04dd): a `char as u8` comparison confuses them
             a += [chr(0x100 + d[0]).encode(), chr(0x400 + d[0]).encode()]
+        # … and the same for the two record terminators: U+010A / U+4E0A end in 0x0A, U+0100 / U+4E00 in 0x00
+        a += ["\u010a".encode(), "\u0100".encode(), "\u4e0a".encode(), "\u4e00".encode()]
     return a, eol
 
 
